@@ -136,6 +136,18 @@ def accepts(sig, n, K):
         return False
 
 
+def declared_forger(obj):
+    for o in (obj, getattr(obj, '__func__', None)):
+        if o is None:
+            continue
+        try:
+            if inspect.getattr_static(o, '_sigtools__forger', None) is not None:
+                return True
+        except Exception:  # noqa
+            pass
+    return False
+
+
 def unhashable(obj):
     try:
         hash(obj)
@@ -155,6 +167,10 @@ def check_object(name, obj, st, origin):
         st.inc('transitions')
         if ref[0] == 'ok':
             if got[0] != 'ok':
+                if got[1] is ValueError and declared_forger(obj):
+                    # the one exception the property names: an explicit forwards_to_* declaration that cannot be honoured
+                    st.inc('declared-forwarding-cannot-be-honoured')
+                    continue
                 feat = {'mode': mode, 'exception': got[1].__name__, 'origin': origin}
                 if got[1] is TypeError and unhashable(obj) and str(got[2]).startswith('unhashable type'):
                     feat = {'cause': 'unhashable-callable'}
@@ -513,6 +529,7 @@ def check_globals_kinds(st):
 
 ODD_SRC = '''
 import functools
+from sigtools import specifiers
 
 
 def OD_callee(x, y, *, z):
@@ -555,6 +572,10 @@ def OD_po_kw(a, /, **kw):
     return a, kw
 
 
+def OD_one_then_kw(a, **kw):
+    return OD_kwonly(**kw)
+
+
 class OD_K(object):
     def noself(*args, **kwargs):
         return OD_kwonly(*args, **kwargs)
@@ -571,6 +592,10 @@ class OD_K(object):
 
     def starself(self, *args, **kwargs):
         return OD_callee(*self, **kwargs)
+
+    @specifiers.forwards_to_method('nowhere')
+    def declared_missing(self, *args, **kwargs):
+        return None
 
 
 class OD_Unhashable(object):
@@ -590,6 +615,8 @@ class OD_UnhashableForwarder(object):
 def odd_objects():
     k = OD_K()
     return [
+        ('partial binding more positionals than the function itself takes', functools.partial(OD_one_then_kw, 1, 2)),
+        ('method declared to forward to an attribute that does not exist', k.declared_missing),
         ('unhashable callable instance', OD_Unhashable()),
         ('unhashable callable instance that forwards', OD_UnhashableForwarder()),
         ('bound __call__ of an unhashable instance', OD_Unhashable().__call__),
@@ -811,6 +838,10 @@ def menagerie():
     add('exec function', (lambda ns: (exec('def ex(a, *args, **kwargs):\n    return g(*args, **kwargs)\ndef g(x, y): pass', ns), ns['ex'])[1])({}))
     add('method of exec class', (lambda ns: (exec('class X:\n    def m(self, *a, **k):\n        return self.n(*a, **k)\n    def n(self, q): pass', ns), ns['X']().m)[1])({}))
     add('async function', (lambda ns: (exec('async def co(a, *args, **kwargs):\n    return 1', ns), ns['co'])[1])({}))
+    import unittest.mock
+    add('unittest.mock.Mock()', unittest.mock.Mock())
+    add('unittest.mock.MagicMock()', unittest.mock.MagicMock())
+    add('unittest.mock.Mock(spec=function)', unittest.mock.Mock(spec=lambda a, b=1: a))
     add('not callable: int', 3)
     add('not callable: None', None)
     add('not callable: str', 'abc')
